@@ -442,3 +442,45 @@ def run_set_order(sink, prop, rng, n, impl, codecs, Gen, Opts, module_text):
                     if len({repr(d[:2]) for d in ds}) > 1:
                         sink.violation('%s: decoding of a SET value depends on the textual order of its components' % codec,
                                        {'codec': codec, 'value': repr(v), 'modules': texts, 'decoded': [repr(d[:2])[:200] for d in ds]})
+
+
+def run_c16(sink, rng, n, impl, codecs, Gen, Opts, module_text):
+    """every strict prefix of a valid encoding of an explicitly tagged type (high tag numbers, untagged CHOICE at the top or inside
+    indefinite-free constructed values) is the library's decode error — never a value, never a foreign exception"""
+    opts = Opts(max_depth=2, allow_exotic=0.0, big_lengths=0.0, many_additions=0.0,
+                kinds=['bool', 'null', 'int', 'enum', 'octs', 'bits', 'str', 'seq', 'set', 'seqof', 'choice', 'choice'])
+    done = tries = 0
+    while done < n and tries < 30 * n:
+        tries += 1
+        g = Gen(rng, opts)
+        t = g.type()
+        if t['k'] not in ('seq', 'set', 'choice', 'seqof', 'setof'):
+            continue
+        decorate(rng, t, p_tag=0.7)
+        mode = rng.choice(['', 'EXPLICIT TAGS', 'IMPLICIT TAGS'])
+        text = module_text([('A', t)], tags=mode)
+        vals = [g.value(t) for _ in range(3)]
+        done += 1
+        for codec in codecs:
+            st, spec = impl.compile_text(text, codec)
+            if st != 'ok':
+                continue
+            for v in vals:
+                if value_tags(t, v, codec):
+                    continue
+                r = impl.encode(spec, 'A', v)
+                if r[0] != 'ok':
+                    continue
+                data = r[1]
+                own = impl.decode(spec, 'A', data)
+                if own[0] != 'ok' or not py_equal(t, own[1], v):
+                    continue
+                cuts = range(len(data)) if len(data) <= 48 else list(range(40)) + list(range(len(data) - 8, len(data)))
+                for k in cuts:
+                    d = impl.decode(spec, 'A', data[:k])
+                    sink.case((text, data.hex(), k, codec))
+                    sink.count('tagged.prefix.%s.%s' % (codec, 'value' if d[0] == 'ok' else d[1].split(':')[0]))
+                    if d[0] == 'ok' or d[1] != 'DecodeError':
+                        sink.violation('%s: a strict prefix of a valid encoding of an explicitly tagged type %s' % (codec, 'decodes to a value' if d[0] == 'ok' else 'raises %s' % d[1]),
+                                       {'codec': codec, 'module': text, 'value': repr(v), 'encoded': data.hex(), 'prefix_length': k, 'result': repr(d[1:])[:300]})
+                        break
